@@ -334,3 +334,40 @@ def region_canon(ctx: Ctx, fi: FuncInfo, stmts: list, prelude: Optional[list] = 
             res.append(st)
         return tuple(res)
     return clean(out)
+
+
+def resolve_local(fn: ast.AST, e: ast.expr, depth: int = 4) -> ast.expr:
+    """look through plain locals that have exactly one assignment in the function: the expression a test or a returned
+    name stands for (``ok = all(...); if ok:`` is ``if all(...):``)"""
+    for _ in range(depth):
+        if not isinstance(e, ast.Name):
+            break
+        defs = [n.value for n in walk_own(fn) if isinstance(n, ast.Assign) and len(n.targets) == 1 and isinstance(n.targets[0], ast.Name)
+                and n.targets[0].id == e.id]
+        defs += [n.value for n in walk_own(fn) if isinstance(n, ast.AnnAssign) and n.value is not None and isinstance(n.target, ast.Name) and n.target.id == e.id]
+        stores = [n for n in walk_own(fn) if isinstance(n, ast.Name) and isinstance(n.ctx, ast.Store) and n.id == e.id]
+        if len(defs) != 1 or len(stores) != 1:
+            break
+        e = defs[0]
+    return e
+
+
+def main_line(stmts: list) -> list:
+    """the statements of a body with early-exit conditionals flattened: ``if c: return`` + ``else: rest`` contributes the
+    conditional (exit arm only) followed by rest, so that the main line of a function reads the same whether or not
+    the part after an early return is wrapped in an else"""
+    out = []
+    for st in stmts:
+        if isinstance(st, ast.Expr) and isinstance(st.value, ast.Constant):
+            continue
+        if isinstance(st, ast.If) and st.body and st.orelse:
+            if isinstance(st.body[-1], (ast.Return, ast.Raise)):
+                out.append(st)
+                out.extend(main_line(st.orelse))
+                continue
+            if isinstance(st.orelse[-1], (ast.Return, ast.Raise)):
+                out.append(st)
+                out.extend(main_line(st.body))
+                continue
+        out.append(st)
+    return out
